@@ -328,6 +328,13 @@ func (l *Lexer) readString() (*Token, error) {
 				// Unknown escape - keep the character
 				buf.WriteByte(next)
 			}
+		case '\r':
+			// An unescaped end-of-line marker inside a literal string reads as
+			// a single LF, whether it is CR, LF or CR LF (ISO 32000-1 7.3.4.2)
+			if peek, err := l.peek(); err == nil && peek == '\n' {
+				l.readByte()
+			}
+			buf.WriteByte('\n')
 		default:
 			buf.WriteByte(b)
 		}
